@@ -1,4 +1,6 @@
 import RsslVerif.Lemmas.SlotsInline
+import RsslVerif.Lemmas.SlotsCompile
+import RsslVerif.Lemmas.SlotsMeta
 /-!
 # C06 — binding slots are allocated completely, contiguously and without overlap
 
@@ -224,5 +226,220 @@ example : (assign (paramsFor .Msl false) 0 exampleDecls).toOption.map (·.bindin
 
 example : (assign (paramsFor .HlslForVulkan true) 0 exampleDecls).toOption.map (·.inlineBufs) =
     some [⟨0, 5, 8⟩, ⟨1, 3, 8⟩] := by decide
+
+/-! ## The end-to-end leg: what `compile()` returns per pipeline
+
+`Model.SlotsCompile` mirrors `compile()` / `build_pipeline()` / `select_pipeline` / the guard of
+`assign_api_bindings` and the metadata construction of both exporters. -/
+section EndToEnd
+open RsslVerif.Gen.SlotCompile RsslVerif.Model.SlotsCompile RsslVerif.Lemmas.SlotsCompile
+
+/-- Tie to the source: `compile()` keeps one immutable type-checked module, `build_pipeline` takes no state shared
+    between pipelines, clones the unbound module, selects the pipeline by name and calls `assign_api_bindings`
+    unconditionally; the allocator never reads a language-level slot index; an explicit group is the register space or the
+    overriding attribute and a pipeline's default group is its DefaultBindGroup property (0 if absent); the exporters read that bound module and list bound root definitions in order, grouped by set
+    (32 comparisons with the comment-stripped, whitespace-normalised current source). -/
+theorem compile_shape_as_modelled :
+    compileShape = ⟨true, true, true, true, true, true, true, true, true, true, true, true, true, true, true, true,
+                    true, true, true, true, true, true, true, true, true, true, true, true, true, true, true, true⟩ := by decide
+
+/-- **Per-pipeline default group.**  For every module the type checker can hand to `compile()` (any declaration
+    sequence, any list of pipelines) and every argument set: the call returns one result per requested pipeline
+    (all / the named one / the single no-pipeline build), and the k-th result is exactly the allocator run
+    `assign (paramsFor target) (default group of the k-th requested pipeline) decls` on the module's whole declaration
+    sequence, followed by the exporter's description of it — whatever other pipelines the file contains and
+    whatever was built before it. -/
+theorem per_pipeline_default_group {a : Args} {ir : Module} {outs : List Built}
+    (hfresh : ir.assigned = false) (hsel : ir.selected = none) (h : compile a ir = .ok outs) :
+    outs.map (fun b => (Except.ok b.slots : Except String Result)) =
+      (requestedDefaults a.mode ir.pipelines).map
+        (fun d => assign (paramsFor a.target a.supportBufferAddress) d ir.decls) ∧
+    outs.map (fun b => (Except.ok b.groups : Except Err (List MetaGroup))) =
+      outs.map (fun b => describe a.target ir.names ir.decls b.slots) := by
+  have key := compile_spec hfresh hsel h
+  clear h
+  generalize requestedDefaults a.mode ir.pipelines = ds at key
+  induction outs generalizing ds with
+  | nil => cases ds with
+    | nil => simp
+    | cons d ds => simp [AllBuiltFor] at key
+  | cons b bs ih => cases ds with
+    | nil => simp [AllBuiltFor] at key
+    | cons d ds =>
+      obtain ⟨⟨h1, h2⟩, hrest⟩ := key
+      obtain ⟨i1, i2⟩ := ih ds hrest
+      exact ⟨by simp [h1, i1], by simp [h2, i2]⟩
+
+/-- The module `typer::type_check` returns satisfies the side conditions (nothing selected, nothing assigned). -/
+theorem fresh_module_unbound (names : List String) (decls : List Decl) (ps : List Pipeline) :
+    (Module.fresh names decls ps).assigned = false ∧ (Module.fresh names decls ps).selected = none := ⟨rfl, rfl⟩
+
+/-- Hence every C06 statement holds for every returned pipeline with ITS default group: index ranges tile,
+    inline offsets tile, exactly the bindable declarations are bound (ungrouped ones in this pipeline's default
+    group), inline blocks are correct. -/
+theorem per_pipeline_tiling {a : Args} {ir : Module} {outs : List Built}
+    (hfresh : ir.assigned = false) (hsel : ir.selected = none) (h : compile a ir = .ok outs) :
+    ∀ (k : Nat) (b : Built), outs[k]? = some b → ∃ d, (requestedDefaults a.mode ir.pipelines)[k]? = some d ∧
+      let p := paramsFor a.target a.supportBufferAddress
+      (∀ g, TilesTo 0 (indexRanges p g ir.decls b.slots.bindings) (totalIndex p d g ir.decls)) ∧
+      (∀ g, TilesTo 0 (inlineRanges p g ir.decls b.slots.bindings) (totalInline p d g ir.decls)) ∧
+      Agrees p d ir.decls b.slots.bindings ∧
+      (∀ ib ∈ b.slots.inlineBufs, ib.sizeInBytes = totalInline p d ib.set ir.decls ∧
+        ib.apiLocation = totalIndex p d ib.set ir.decls) := by
+  intro k b hb
+  have key := compile_spec hfresh hsel h
+  have hlen := key.length
+  have hk : k < (requestedDefaults a.mode ir.pipelines).length := by
+    rw [hlen]; exact (List.getElem?_eq_some_iff.1 hb).1
+  refine ⟨(requestedDefaults a.mode ir.pipelines)[k], List.getElem?_eq_getElem hk, ?_⟩
+  have hb' := (key.get (List.getElem?_eq_getElem hk) hb).1
+  have hp := paramsFor_ok a.target a.supportBufferAddress
+  exact ⟨fun g => index_ranges_tile hp hb' g, fun g => inline_offsets_tile hp hb' g, binding_complete hp hb',
+    fun ib hib => ⟨((inline_buffers_correct hp hb').1 ib hib).1, ((inline_buffers_correct hp hb').1 ib hib).2.1⟩⟩
+
+/-- Independence of the other pipelines, in the form the seeded defect violated: building the k-th pipeline of a
+    file by name gives exactly one result, equal to the k-th entry of the whole-file result. -/
+theorem by_name_agrees_with_whole_file {t : Target} {sba : Bool} {ir : Module} {outs outs' : List Built}
+    {k : Nat} {p : Pipeline} {b : Built}
+    (hfresh : ir.assigned = false) (hsel : ir.selected = none)
+    (hall : compile { target := t, supportBufferAddress := sba, mode := .all } ir = .ok outs)
+    (hp : ir.pipelines[k]? = some p) (hb : outs[k]? = some b)
+    (hname : compile { target := t, supportBufferAddress := sba, mode := .named p.name } ir = .ok outs') :
+    outs' = [b] := by
+  have kall := compile_spec hfresh hsel hall
+  have kname := compile_spec hfresh hsel hname
+  simp only [requestedDefaults] at kall kname
+  have hbk : IsBuiltFor t (paramsFor t sba) ir p.defaultGroup b := kall.get (by simp [hp]) hb
+  have hpm : p ∈ ir.pipelines := List.mem_of_getElem? hp
+  -- by-name mode: the loop succeeded, the result list has exactly one element
+  unfold compile at hname
+  simp only [] at hname
+  split at hname
+  · cases hname
+  · cases hl : buildLoop t ir (paramsFor t sba) (some p.name) ir.pipelines with
+    | error e => simp [hl] at hname
+    | ok bs =>
+      simp only [hl] at hname
+      split at hname
+      · cases hname
+      · rename_i hlen
+        split at hname
+        · cases hname
+        · rename_i hne
+          cases hname
+          -- p itself was built, so its name is unique in the module
+          obtain ⟨bp, hbp⟩ := buildLoop_ok_mem hl p hpm (by simp [keeps])
+          obtain ⟨m', hm'⟩ := buildPipeline_ok_select hbp
+          have huniq := selectPipeline_unique hm'
+          have hfil : ∀ q ∈ ir.pipelines.filter (fun q => decide (q.name = p.name)), q = p := by
+            intro q hq
+            simp only [List.mem_filter, decide_eq_true_eq] at hq
+            exact huniq q hq.1 p hpm hq.2 rfl
+          cases outs' with
+          | nil => simp at hne
+          | cons b' rest =>
+            cases rest with
+            | cons r rs => simp at hlen
+            | nil =>
+              cases hf : ir.pipelines.filter (fun q => decide (q.name = p.name)) with
+              | nil => rw [hf] at kname; simp [AllBuiltFor] at kname
+              | cons q qs =>
+                rw [hf] at kname hfil
+                have hq : q = p := hfil q (by simp)
+                subst hq
+                simp only [List.map_cons] at kname
+                rw [IsBuiltFor.unique kname.1 hbk]
+
+/-! ### The reflection metadata is the allocation -/
+open RsslVerif.Lemmas.SlotsMeta
+
+theorem inlineBytes_zero_of_no_buffer_address {p : Params} (h : p.supportBufferAddress = false) (d : Decl) :
+    inlineBytes p d = 0 := by
+  cases d with
+  | other => rfl
+  | cbuffer _ => rfl
+  | global s ss k l =>
+    cases k with
+    | none => rfl
+    | some k => simp [inlineBytes, isInline, h]
+
+theorem totalInline_zero_of_no_buffer_address {p : Params} (h : p.supportBufferAddress = false) (dflt g : Nat) :
+    ∀ ds : List Decl, totalInline p dflt g ds = 0
+  | [] => rfl
+  | d :: ds => by
+    have ih := totalInline_zero_of_no_buffer_address h dflt g ds
+    unfold totalInline at ih ⊢
+    simp only [List.map_cons, List.sum_cons, inlineBytes_zero_of_no_buffer_address h, ite_self] at ih ⊢
+    omega
+
+theorem agrees_all_index {p : Params} {dflt : Nat} (h : p.supportBufferAddress = false) :
+    ∀ {ds : List Decl} {bs : List (Option Binding)}, Agrees p dflt ds bs →
+      ∀ ob ∈ bs, ∀ b, ob = some b → ∃ i, b.loc = .index i
+  | [], [], _, ob, hob, _, _ => by simp at hob
+  | d :: ds, ob0 :: bs, ha, ob, hob, b, hb => by
+    obtain ⟨h0, hrest⟩ := ha
+    rcases List.mem_cons.1 hob with rfl | hob
+    · subst hb
+      simp only [] at h0
+      cases hl : b.loc with
+      | index i => exact ⟨i, rfl⟩
+      | inline o =>
+        rw [hl] at h0
+        have := inlineBytes_zero_of_no_buffer_address h d
+        omega
+    · exact agrees_all_index h hrest ob hob b hb
+  | [], _ :: _, ha, _, _, _, _ => by simp [Agrees] at ha
+  | _ :: _, [], ha, _, _, _, _ => by simp [Agrees] at ha
+
+theorem metal_params_no_buffer_address (t : Target) (sba : Bool) (h : isMetal t = true) :
+    (paramsFor t sba).supportBufferAddress = false := by
+  cases t <;> simp_all [isMetal, paramsFor]
+
+/-- **What is observed is what was allocated.**  For every pipeline `compile()` returns, on every target, the
+    returned metadata lists in group `g` exactly the bound declarations whose binding is in group `g`, in
+    declaration order, each with the allocator's location and its descriptor count, and the group's inline block
+    is the allocator's inline block of that set (none on Metal, where there are none).  On Metal this includes
+    that the exporter's per-group sort by index changes nothing, because the index ranges tile in declaration order. -/
+theorem metadata_is_the_allocation {a : Args} {ir : Module} {outs : List Built}
+    (hfresh : ir.assigned = false) (hsel : ir.selected = none) (h : compile a ir = .ok outs) :
+    ∀ b ∈ outs, ∀ g,
+      bindingsAt b.groups g = entriesOf g ir.names ir.decls b.slots.bindings ∧
+      inlineAt b.groups g =
+        (b.slots.inlineBufs.find? (fun x => x.set == g)).map (fun x => (x.apiLocation, x.sizeInBytes)) := by
+  intro b hb g
+  obtain ⟨d, _, hassign, hdesc⟩ := (compile_spec hfresh hsel h).mem b hb
+  have hp := paramsFor_ok a.target a.supportBufferAddress
+  have hbuf := inline_buffers_correct hp hassign
+  cases hm : isMetal a.target with
+  | false => exact describe_hlsl_spec hm hbuf.2.2 hdesc g
+  | true =>
+    have hsba := metal_params_no_buffer_address a.target a.supportBufferAddress hm
+    have hidx := agrees_all_index hsba (binding_complete hp hassign)
+    have hnil : b.slots.inlineBufs = [] := by
+      cases hl : b.slots.inlineBufs with
+      | nil => rfl
+      | cons x xs =>
+        obtain ⟨h1, _, h3⟩ := hbuf.1 x (by simp [hl])
+        have := totalInline_zero_of_no_buffer_address hsba d x.set ir.decls
+        omega
+    obtain ⟨m1, m2⟩ := describe_metal_spec hm (fun g' => ⟨_, index_ranges_tile hp hassign g'⟩) hidx hdesc g
+    exact ⟨m1, by simp [m2, hnil]⟩
+
+/-! Non-vacuity: two pipelines with different default groups over one ungrouped buffer address and one explicit
+    group — the whole-file call returns both layouts, each in its own default group. -/
+def examplePipelines : List Pipeline := [⟨"P0", 2⟩, ⟨"P1", 0⟩]
+def exampleModule : Module :=
+  Module.fresh ["g_a", "g_b", "cb"]
+    [.global none false (some .RWBufferAddress) none, .global (some 1) false (some .Texture2D) (some 2), .cbuffer none]
+    examplePipelines
+
+example : (compile ⟨.HlslForVulkan, true, .all⟩ exampleModule).toOption.map (·.map (·.groups)) =
+    some [ [⟨[], none⟩, ⟨[⟨"g_b", .index 0, 2⟩], none⟩, ⟨[⟨"g_a", .inline 0, 1⟩, ⟨"cb", .index 0, 1⟩], some (1, 8)⟩],
+           [⟨[⟨"g_a", .inline 0, 1⟩, ⟨"cb", .index 0, 1⟩], some (1, 8)⟩, ⟨[⟨"g_b", .index 0, 2⟩], none⟩] ] := by decide
+
+example : (compile ⟨.Msl, false, .named "P1"⟩ exampleModule).toOption.map (·.map (·.groups)) =
+    some [ [⟨[⟨"g_a", .index 0, 1⟩, ⟨"cb", .index 2, 1⟩], none⟩, ⟨[⟨"g_b", .index 0, 2⟩], none⟩] ] := by decide
+
+end EndToEnd
 
 end RsslVerif.Thm.C06
